@@ -22,8 +22,10 @@ CLAIMED = {
             "and of all method-level / line-level schedules with bounded preemptions of concurrent hits. Beyond the "
             "bounds this is exploration, not proof.",
             TRUSTED + "; time is the virtual clock; windows are set on LocationAction directly"),
-    'C09': (['TaskFlush', 'Trace_TaskFlush'],
+    'C09': (['TaskFlush', 'Trace_TaskFlush', 'HandlerIsolation'],
             "TLA+ spec TaskFlush.tla (submit/pool/callback/flush micro-steps) model-checked with TLC incl. liveness; "
+            "TLA+ spec HandlerIsolation.tla (two handlers of one process, own job numbers and pending tables) "
+            "model-checked and its graph walks replayed into two real TaskHandlers with manual futures; "
             "the real TaskHandler run under a cooperative scheduler with a controlled executor over every "
             "bounded-preemption schedule (method and line granularity), each execution trace validated against the spec "
             "by TLC",
@@ -43,7 +45,8 @@ CLAIMED = {
             "state. Truthiness is asserted only for True/False/failing results.",
             TRUSTED + "; expressions are side-effect free"),
     'C02': (['Snapshot', 'Collector', 'Trace_Collector'],
-            "TLA+ spec Snapshot.tla (paused stack x frame_type x watches x tracepoints per location x time budget) "
+            "TLA+ spec Snapshot.tla (paused stack x frame_type x watches x tracepoints per location x time budget x a "
+            "second configuration seeing the same files under another application root) "
             "model-checked with TLC; its behaviours (tlc -simulate) materialised as real nested calls/methods and the "
             "delivered snapshots compared with the spec state and an independent reading of the paused frames; value "
             "rendering checked on random object graphs against by-construction expectations",
